@@ -33,7 +33,7 @@ def replay_sce(rec):
             compile(rec["out"], "<converted>", "eval")
         except Exception as e:
             return {"reproduced": True, "divergence": "rejected-or-compile-error:%s" % type(e).__name__}
-    ob = rt.Obligation({"oid": "replay", "src": rec["src"], "out": rec["out"], "observe": rec.get("observe", "trace+globals"), "budget": rec.get("budget", 60), "hook": rec.get("hook"), "meta": rec.get("meta")})
+    ob = rt.Obligation({"oid": "replay", "src": rec["src"], "out": rec["out"], "observe": rec.get("observe", "trace+globals"), "budget": rec.get("budget", 60), "hook": rec.get("hook"), "meta": rec.get("meta"), "ignore_globals": rec.get("ignore_globals")})
     inputs = rec["inputs"] or {}
     outs = []
     sides = []
@@ -48,7 +48,7 @@ def replay_sce(rec):
         src_keys = None
         if mode == "eval":
             src_keys = set(n for n, _ in sides[0][0][2]) if sides[0][0][0] == "ok" and sides[0][0][2] != ("stopped",) else set()
-        r = rt.run_side(code, mode, dict(inputs), ob.observe, ob.budget, src_keys, real_print, None, ob.hook, ob.meta)
+        r = rt.run_side(code, mode, dict(inputs), ob.observe, ob.budget, src_keys, real_print, None, ob.hook, ob.meta, ob.ignore)
         sides.append(r)
         outs.append(buf.getvalue())
     a, b = sides[0][0], sides[1][0]
